@@ -145,6 +145,39 @@ class FCFG(CFG):
         return None
 
     @classmethod
+    def from_text(cls, text, start_symbol=Variable("S")):
+        """
+        Read a feature context free grammar from a text (see \
+        :meth:`~pyformlang.cfg.CFG.from_text` for the format).
+
+        The productions are kept in a list: two feature productions with the \
+        same head and body but different features are equal as plain \
+        productions, a set would keep only one of them.
+
+        Parameters
+        ----------
+        text : str
+            The text of transform
+        start_symbol : str, optional
+            The start symbol, S by default
+
+        Returns
+        -------
+        fcfg : :class:`~pyformlang.fcfg.FCFG`
+            A feature context free grammar.
+        """
+        variables = set()
+        productions = []
+        terminals = set()
+        for line in text.splitlines():
+            line = line.strip()
+            if not line:
+                continue
+            cls._read_line(line, productions, terminals, variables)
+        return cls(variables=variables, terminals=terminals,
+                   productions=productions, start_symbol=start_symbol)
+
+    @classmethod
     def _read_line(cls, line, productions, terminals, variables):
         structure_variables = {}
         head_s, body_s = line.split("->")
@@ -179,7 +212,7 @@ class FCFG(CFG):
                     body.append(body_ter)
                     all_body_fs.append(FeatureStructure())
             production = FeatureProduction(head, body, head_fs, all_body_fs)
-            productions.add(production)
+            productions.append(production)
 
 
 def _split_text_conditions(head_text):
